@@ -65,9 +65,13 @@ def props : Schema :=
 def lastSeen (proto : Int) : Schema :=
   fields [[varint, P (.fixed 3)], onlyIf (proto ≥ Minecraft_1_21_5) [u8]]
 
+/-- tagged union with the cases listed for tags 0, 1, 2, … and a default for every other tag -/
+def swL (tag : Prim) (cases : List Schema) (dflt : Schema) : Schema :=
+  .sw tag cases.length (fun i => cases.get i) dflt
+
 /-- the sound-source ordinal: `UI` (10) is rejected below 1.21.5 -/
 def soundSource (proto : Int) : Schema :=
-  .sw .varint fun t => if proto < Minecraft_1_21_5 ∧ t = 10 then .fail else .unit
+  swL .varint (List.replicate 10 .unit ++ [if proto < Minecraft_1_21_5 then .fail else .unit]) .unit
 
 def mk (body : Schema) : PSchema := { body := body }
 
@@ -142,11 +146,11 @@ def schemaOf (name : String) (c : Ctx) : Option PSchema :=
   | "packet.CustomReportDetails" => some   -- a Go map: duplicate keys collapse, order is not kept
       { body := .arr .empty none (seqs [string, string]), vals := false }
   | "packet.ServerLinks" => some <| mk <| .arr .err (some 128) <|
-      .sw (.uint 1) fun known => if known ≠ 0 then seqs [varint, string] else seqs [component p, string]
+      swL (.uint 1) [seqs [component p, string]] (seqs [varint, string])   -- bool `known id`: 0 = custom name
   | "packet.DialogClear" => some <| mk .unit
   | "packet.DialogShow" => some <| mk <|
       if c.state = 2 then nbt (decide (p < Minecraft_1_20_2))
-      else .sw .varint fun id => if id = 0 then nbt (decide (p < Minecraft_1_20_2)) else .unit
+      else swL .varint [nbt (decide (p < Minecraft_1_20_2))] .unit          -- id 0 = inline dialog
   | "packet.BundleDelimiter" => some <| mk .unit
   /- ---------- config ---------- -/
   | "config.FinishedUpdate" => some <| mk .unit
@@ -179,34 +183,30 @@ def schemaOf (name : String) (c : Ctx) : Option PSchema :=
       onlyIf (p < Minecraft_1_19_3) [P (.constBool false)],
       onlyIf (p ≥ Minecraft_1_19_1 ∧ p < Minecraft_1_20_5) [bool]]
   | "packet.SoundEntityPacket" => some <| mk <| seqs [
-      .sw .varint (fun id => if id = 0 then seqs [string, .opt true f32] else .unit),
+      swL .varint [seqs [P .minKey, .opt true f32]] .unit,                    -- sound id 0 = named sound
       soundSource p, varint, f32, f32, i64]
   | "packet.StopSoundPacket" => some <| mk <|
-      .sw (.uint 1) fun flags => seqs [
-        if flags % 2 = 1 then soundSource p else .unit,
-        if (flags / 2) % 2 = 1 then key else .unit]
+      .sw (.uint 1) 256 (fun flags => seqs [
+        if flags.val % 2 = 1 then soundSource p else .unit,
+        if (flags.val / 2) % 2 = 1 then key else .unit]) .unit
   | "bossbar.BossBar" => some <| mk <| seqs [uuid,
-      .sw .varint fun a =>
-        if a = 0 then seqs [component p, f32, varint, varint, u8]
-        else if a = 1 then .unit
-        else if a = 2 then f32
-        else if a = 3 then component p
-        else if a = 4 then seqs [varint, varint]
-        else if a = 5 then u8
-        else .fail]
+      swL .varint [
+        seqs [component p, f32, varint, varint, u8],   -- add
+        .unit,                                          -- remove
+        f32,                                            -- update percent
+        component p,                                    -- update name
+        seqs [varint, varint],                          -- update style
+        u8] .fail]                                      -- update properties
   | "title.Text" => some <| mk <| component p
   | "title.Subtitle" => some <| mk <| component p
   | "title.Actionbar" => some <| mk <| component p
   | "title.Times" => some <| mk <| seqs [i32, i32, i32]
   | "title.Clear" => some <| mk bool
   | "title.Legacy" => some <| mk <|
-      .sw .varint fun wire =>
-        -- below 1.11 the wire enum has no action-bar entry: wire values > 1 are shifted up by one
-        let a := if p < Minecraft_1_11 ∧ wire > 1 then wire + 1 else wire
-        if a = 0 ∨ a = 1 ∨ a = 2 then component p
-        else if a = 3 then seqs [i32, i32, i32]
-        else if a = 4 ∨ a = 5 then .unit
-        else .fail
+      -- wire action: title, subtitle, (1.11+: action bar,) times, hide, reset
+      let times := seqs [i32, i32, i32]
+      if p < Minecraft_1_11 then swL .varint [component p, component p, times, .unit, .unit] .fail
+      else swL .varint [component p, component p, component p, times, .unit, .unit] .fail
   | "chat.LegacyChat" => some <| mk <| fields [
       [str (if c.dir = clientBound then 262144 else if p ≥ Minecraft_1_11 then 256 else 100)],
       onlyIf (c.dir = clientBound ∧ p ≥ Minecraft_1_8) [u8],
@@ -221,8 +221,8 @@ def schemaOf (name : String) (c : Ctx) : Option PSchema :=
   | "chat.UnsignedPlayerCommand" => some <| mk string
   | "playerinfo.Remove" => some <| mk <| .arr .err none uuid
   | "playerinfo.Upsert" => some
-      { body := .sw (.uint 1) fun bits =>
-          let bit (i : Nat) : Bool := (bits.toNat / 2 ^ i) % 2 = 1
+      { body := .sw (.uint 1) 256 (fun bits =>
+          let bit (i : Nat) : Bool := (bits.val / 2 ^ i) % 2 = 1
           .arr .empty none <| fields [
             [uuid],
             onlyIf (bit 0) [str 16, props],
@@ -232,7 +232,7 @@ def schemaOf (name : String) (c : Ctx) : Option PSchema :=
             onlyIf (bit 4) [varint],
             onlyIf (bit 5) [.opt true (component p)],
             onlyIf (bit 6) [varint],
-            onlyIf (bit 7) [bool]],
+            onlyIf (bit 7) [bool]]) .unit,
         exact := false }       -- a present chat-session key must also parse as an RSA public key
   | _ => none
 
